@@ -113,9 +113,15 @@ pub fn raw_shape(text: &str) -> (bool, bool) {
         match item {
             Err(_) => return (true, false),
             Ok((ev, _)) => match ev {
-                Event::Scalar(v, style, _, _) => {
+                Event::Scalar(v, style, _, tag) => {
                     if depth == 0 && root.is_none() {
-                        let nullish = matches!(style, ScalarStyle::Plain)
+                        // a scalar explicitly tagged `!!str` is a string whatever it looks like
+                        let str_tag = tag
+                            .as_ref()
+                            .map(|t| t.suffix == "str" && (t.handle == "!!" || t.handle == "tag:yaml.org,2002:"))
+                            .unwrap_or(false);
+                        let nullish = !str_tag
+                            && matches!(style, ScalarStyle::Plain)
                             && (v.is_empty() || v == "~" || v.eq_ignore_ascii_case("null"));
                         root = Some(nullish);
                     }
@@ -768,6 +774,8 @@ pub fn kinds_for(target: Target) -> Vec<DocSpec> {
             d("empty-double-quoted", "\"\"\n"),
             d("empty-single-quoted", "''\n"),
             d("tagged-str-null", "!!str null\n"),
+            d("tagged-str-empty", "!!str\n"),
+            d("tagged-null", "!!null anything\n"),
             d("anchors", "&x anchored text\n"),
             DocSpec { alias_of_earlier: true, ..d("alias-earlier", "*x\n") },
             d("type-early", "[not, a, string]\n"),
